@@ -2,8 +2,22 @@
 COMMON_TB = []
 PROPS = {
     "C08": {
+        "level_text": "Proof. The quorum predicates, divCeil, scalePower and CouldReachStrongQuorumFor are TRANSLATED from /repo's source on every run (go2coq) with explicit int64 wrap-around; Coq proves strong_iff (strong quorum <=> 3*part >= 2*whole for every 0 <= whole < 2^62, any part), quorum intersection (numeric and over duplicate-free signer lists), weak > 1/3, weak blocks strong, soundness of could-not-reach (with and without the adversary allowance), scaled powers in [0,65535], summing to <= 65535 and order-preserving for tables of arbitrary big-integer powers, and absence of overflow on the scaled domain. A change to the code re-generates the model and the theorems are re-checked against it. Additionally the real predicates are swept exhaustively over all (part,whole) in [0,65535]^2 and compared, with PowerTable.Add/Scaled and the real tally, against the model evaluated inside Coq.",
+        "level_note": "Trusted: Coq kernel, go2coq translator (small, output human-readable, cross-checked by the correspondence sweep), big.Int arithmetic taken as exact, sort.Sort. Not covered by a theorem: that certs.go/validator.go call the same predicate (checked behaviourally at the threshold boundary in C04/C05).",
+        "technique": "Coq proof over go2coq-translated functions (lia, int64 wrap explicit) + exhaustive sweep + differential correspondence",
         "coq_deps": ["Base/GoInt.vo", "Gen/QuorumGen.vo", "Quorum/QuorumProofs.vo", "Quorum/Sets.vo"],
         "trusted_base": ["modelled, not verified: math/big and go-state-types/big arithmetic (taken as exact integer arithmetic), sort.Sort in PowerTable.Add"],
         "assumptions": ["big.Int arithmetic is exact; scaled totals are <= 65535 (proved: scaled_sum_le) so int64 never wraps on the protocol's domain"],
     },
+    "C20": {
+        "level_text": "Proof (global convergence partial). predictor.update, newPredictor, the delay computation of Subscriber.run and every progress expression of Subscriber.poll / Poller.CatchUp are TRANSLATED from /repo on every run. Coq proves: progress = instances advanced at both return sites (no uint64 wrap), wait = remaining interval + min(request time, half), invariant min <= interval <= max with bounded explore distance/back-off for every reachable predictor state and every progress value, steady production is a fixed point, >=2 certificates per poll never lengthen and strictly shorten the interval above the minimum, no progress enters/doubles a capped back-off that one certificate ends, wait always in [min,10*max]. Real predictor runs (sequences and arbitrary states) and real polling rounds over a libp2p mocknet are compared with the model inside Coq. NOT proved: convergence to the true production interval from an arbitrary start.",
+        "level_note": "Trusted: Coq kernel, go2coq, durations within +-2^50 ns. The select loop of Subscriber.run, peer selection and libp2p are not modelled; the delay formula is tied by translation only (it is inlined in run()).",
+        "technique": "Coq proof over go2coq-translated predictor/subscriber arithmetic + differential correspondence over mocknet polling rounds",
+        "coq_deps": ["Base/GoInt.vo", "Gen/PredictorGen.vo", "Cx/PredictorProofs.vo", "Cx/PredictorRun.vo"],
+        "trusted_base": ["modelled, not verified: libp2p mocknet transport, go-clock mock, the peer tracker's peer selection (only its effect through Poll results is observed)"],
+        "assumptions": ["durations within +-2^50 ns; instance numbers below 2^64 (no wrap of NextInstance)",
+                        "global convergence from an arbitrary start is NOT proved (fixed point, monotone responses and invariants are)"],
+    },
 }
+
+NOT_APPLICABLE = {}
